@@ -199,6 +199,9 @@ func runLease(e *exec) {
 		sort.Slice(held, func(i, j int) bool { return held[i].Compare(held[j]) < 0 })
 		for _, ip := range held {
 			h := d.hold[ip]
+			if d.now() >= h.until { // the lease has run out: nothing is owed to its holder any more
+				continue
+			}
 			found := false
 			for b := range saved {
 				if b.cid == h.cid && b.ip == ip {
